@@ -194,6 +194,14 @@ Definition client13 (O : Orc) (r : Run) : res Session :=
          | None => alert unexpected_message
          | Some (None, _) => Err TypeError
          | Some (Some sch0, sg) =>
+           (* /repo 7b4ef0e: a value that is no SignatureScheme and whose hash byte names no hash
+              is refused before the verify bytes are computed *)
+           _ <- guard (negb (is_none (SignatureScheme_toRepr (Some sch0))
+                             && match HashAlgorithm_toRepr (fst sch0) with
+                                | None => true
+                                | Some n => String.eqb n "none"
+                                end))
+                      (alert illegal_parameter) ;;
            ctx <- vb13 O sch0 (r_prf r) tag_server (r_tr_cv r) ;;
            _ <- key_from_chain cm ;;
            '(key, sch, curve, isdc) <-
